@@ -166,6 +166,7 @@ type GateSpec struct {
 	N         int    `json:"n"`         // ordinal among calls of that kind (0-based)
 	IgnoreCtx bool   `json:"ignorectx"` // keep blocking even when the call's ctx is done
 	Release   string `json:"release"`   // "manual", "after-stop", "never"
+	All       bool   `json:"all,omitempty"` // hold every call of that kind from ordinal N on (a hung store), not just the N-th
 }
 
 type StoreScript struct {
@@ -173,6 +174,8 @@ type StoreScript struct {
 	FailKind  []string       `json:"fail_kind,omitempty"`  // one-shot failures: kind[i] at ordinal FailN[i]
 	FailN     []int          `json:"fail_n,omitempty"`
 	Gates     []GateSpec     `json:"gates,omitempty"`
+	// FailAll: every call of this kind fails (a persistently sick store call)
+	FailAll string `json:"fail_all,omitempty"`
 }
 
 type StoreCtl struct {
@@ -223,7 +226,7 @@ func (c *StoreCtl) Hook(ci *CallInfo) error {
 		time.Sleep(time.Duration(us) * time.Microsecond)
 	}
 	for i, g := range c.script.Gates {
-		if g.Kind == ci.Kind && g.N == ci.KindSeq {
+		if g.Kind == ci.Kind && (g.N == ci.KindSeq || (g.All && ci.KindSeq >= g.N)) {
 			c.mu.Lock()
 			if !c.entered[i] {
 				c.entered[i] = true
@@ -241,6 +244,12 @@ func (c *StoreCtl) Hook(ci *CallInfo) error {
 				}
 			}
 		}
+	}
+	if c.script.FailAll != "" && c.script.FailAll == ci.Kind {
+		c.mu.Lock()
+		c.Fired[ci.Kind+"#all"] = true
+		c.mu.Unlock()
+		return fmt.Errorf("%w (%s, persistent)", errInjected, ci.Kind)
 	}
 	for i, k := range c.script.FailKind {
 		if k == ci.Kind && i < len(c.script.FailN) && c.script.FailN[i] == ci.KindSeq {
